@@ -4,7 +4,7 @@ import pipeline
 LEAN_MODULES = ['PomerolModel.Properties.C14']
 GENERATED = ['susc']
 THEOREMS = ["Pomerol.Properties.C14." + t for t in ['susceptibility_equals_definition', 'static_limit', 'tau_is_correlator', 'tau_frequency_consistent', 'disconnected_part']]
-RULE = 'a case = random model (many with exact degeneracies), all (a,b,c,d) sampled incl. S_z-changing ones, bosonic n in {0,+-1,..}, three ways of supplying the averages, tau grid; compared with the full-space bosonic Lehmann sum; cases whose level splittings fall into the ambiguous window [1e-12,1e-5] are counted and skipped; non-trivial = distinct case with a degenerate pair of levels contributing at n=0 or at least two modes'
+RULE = 'a case = random model (many with exact degeneracies), all (a,b,c,d) sampled incl. S_z-changing ones, bosonic n in {0,+-1,..}, three ways of supplying the averages, tau grid; compared with the full-space bosonic Lehmann sum; every fourth case has an exact degeneracy lifted by a tiny level shift (1e-10 .. 1e-4); a tolerance decision of the library that is numerically undecidable (within 1e-4 relative of 1e-8) widens the comparison budget by the term concerned and is counted as ambiguous; the minimised near-degenerate case of finding F14 (corpus/C14) runs first; non-trivial = distinct case with a degenerate pair of levels contributing at n=0 or at least two modes'
 TRUSTED = ["harness/pipe.cpp drives the real classes along the documented workflow; case-file protocol with hex doubles",
            "numeric oracle (lean/Driver/Numeric*.lean): IEEE double arithmetic of compiled Lean, full-Fock-space sums",
            "Eigen's SelfAdjointEigenSolver is not verified: its output is certified on every case (residual, orthonormality)"]
@@ -18,7 +18,7 @@ DESIGN_REF = "DESIGN.md section 6, C14"
 
 def correspondence(ctx):
     pipeline.numeric_campaign(ctx, ["C14"], ("susc",), 30, 400, max_modes_quick=4, max_modes_thorough=5,
-                              trunc=False,
+                              trunc=False, near=4,
                               nontrivial=lambda meta, s: meta["modes"] >= 2)
 
 
